@@ -326,6 +326,22 @@ def r4(R4, cfg, F):
         # and what is appended is the segment itself
         ps = [m for m in muts if m.callee.name == 'push_str']
         ok = ok and len(ps) == 1 and (b.origins(ps[0].args[1]) == {('arg', 2)} or common.strip_refs(common.deep_path(b, ps[0].args[1])) == ['arg2'])
+    # pop: `..` removes the last segment -- also when it is the only one; it fails only on an empty builder (the path
+    # would leave the root)
+    pb = F.body('utils::private::IdBuilder::pop')
+    if not pb:
+        R4.missing(cfg, 'IdBuilder::pop')
+    else:
+        emp = [c for c in pb.calls() if c.callee and c.callee.name == 'is_empty' and 'buf' in (common.deep_path(pb, c.args[0]) or [])]
+        tr = [c for c in pb.calls() if c.callee and c.callee.name in ('truncate', 'clear') and 'String' in c.callee.best]
+        nones = [bb for bb, _, st in pb.assigns() if st['place']['l'] == 0 and not st['place']['p'] and st['rv']['k'] == 'aggregate' and st['rv'].get('variant_name') == 'None']
+        okp = len(emp) == 1 and bool(tr) and bool(nones) and all(any(c is emp[0] and truth is True for c, truth in common.call_truth_guards(pb, bb)) for bb in nones)
+        if okp:
+            # on a non-empty builder the buffer is always shortened
+            g = [x for x in common.guards_of(pb, tr[0].bb)]
+            okp = not (pb.reachable([0], removed_blocks=[t.bb for t in tr] + nones) & set(pb.return_blocks()))
+        R4.check(okp, cfg, pb.path, 'pop-fails-only-when-empty', 'IdBuilder::pop must remove the last segment whenever there is one (also the only one) and fail only on an empty builder: '
+                 '`a/../b.x` names `b.x`', pb.loc())
     R4.check(ok, cfg, b.path, 'dot-check-dominates-mutation', 'IdBuilder::push must return None for a segment containing "." before touching the buffer (ids are split on "." to build paths, so such a segment would alias another entry)', b.loc())
 
 
